@@ -367,6 +367,18 @@ def _int(x=0, base=10):
             if not bool(_digit_or(x)):
                 raise ValueError("invalid literal for int()")
             return Opaque("int", x)
+        # int(text, base) raises ValueError on a digit outside the base; signs, blanks, '_' and radix prefixes are not modelled
+        if base not in (8, 16) or not x.els:
+            raise Unsupported("int(symbolic text, %r)" % (base,))
+        for e in x.els:
+            if isinstance(e, int):
+                int(bytes([e]), base)
+                continue
+            ok = z3.And(e >= 48, e <= 55) if base == 8 else z3.Or(z3.And(e >= 48, e <= 57), z3.And(e >= 65, e <= 70), z3.And(e >= 97, e <= 102))
+            if not bool(SB(ok)):
+                if bool(SB(_in_set(e, {9, 10, 11, 12, 13, 28, 29, 30, 31, 32, 43, 45, 95, 79, 111, 88, 120, 133, 160}))):
+                    raise Unsupported("int() of symbolic text with a sign, blank, underscore or radix prefix")
+                raise ValueError("invalid literal for int() with base %d" % base)
         v = 0
         for e in x.els:
             d = int(bytes([e]), base) if isinstance(e, int) else _hexval(e)
